@@ -235,6 +235,34 @@ theorem M44_sansScaling_total {tmin tmax : α} {sqrt sin cos : α → α} {atan2
   obtain ⟨r, he⟩ := Option.isSome_iff_exists.mp ((M44_extractAndRemoveScalingAndShear_succeeds_iff (tmin := tmin) hs h1 m).mpr hd)
   exact ⟨r.scl, by rw [M44_extractScaling, he], (M44_sansScaling_recompose hs ht ha he).2⟩
 
+/-- `removeScaling (Matrix44)`: unconditional form -/
+theorem M44_removeScaling_total {tmin tmax : α} {sqrt sin cos : α → α} {atan2 : α → α → α}
+    (hs : SqrtSpec sqrt) (ht : EulerTrigSpec sin cos atan2) (h1 : 1 < tmax) {m : M44 α} (ha : Affine3 m) (hd : (lin3 m).det ≠ 0) :
+    ∃ s, Gen.M44.extractScaling tmin tmax sqrt m = (true, s) ∧
+      Gen.M44.removeScaling tmin tmax sqrt sin cos atan2 m = (true, Gen.M44.sansScaling tmin tmax sqrt sin cos atan2 m) ∧
+      scaleH3 s * (Gen.M44.removeScaling tmin tmax sqrt sin cos atan2 m).2.toMat = m.toMat := by
+  obtain ⟨r, he⟩ := Option.isSome_iff_exists.mp ((M44_extractAndRemoveScalingAndShear_succeeds_iff (tmin := tmin) hs h1 m).mpr hd)
+  refine ⟨r.scl, by rw [M44_extractScaling, he], by rw [M44_removeScaling, he], ?_⟩
+  exact (M44_removeScaling_recompose hs ht ha he).2.2
+
+/-- `extractScalingAndShear`, `extractScaling`, `sansScalingAndShear` (both spellings), `removeScalingAndShear (Matrix44)`:
+unconditional form — they succeed, the residual is a rotation (orthonormal, determinant +1) and `scale * shear * residual = M` -/
+theorem M44_sansScalingAndShear_total {tmin tmax : α} {sqrt : α → α}
+    (hs : SqrtSpec sqrt) (h1 : 1 < tmax) {m : M44 α} (ha : Affine3 m) (hd : (lin3 m).det ≠ 0) :
+    ∃ s h, Gen.M44.extractScalingAndShear tmin tmax sqrt m = (true, s, h) ∧ Gen.M44.extractScaling tmin tmax sqrt m = (true, s) ∧
+      Gen.M44.extractScalingExc tmin tmax sqrt m = .ok (true, s) ∧
+      Gen.M44.removeScalingAndShear tmin tmax sqrt m = (true, Gen.M44.sansScalingAndShear tmin tmax sqrt m) ∧
+      Gen.M44.sansScalingAndShearExc tmin tmax sqrt m = .ok (Gen.M44.sansScalingAndShear tmin tmax sqrt m) ∧
+      lin3 (Gen.M44.sansScalingAndShear tmin tmax sqrt m) * (lin3 (Gen.M44.sansScalingAndShear tmin tmax sqrt m))ᵀ = 1 ∧
+      (lin3 (Gen.M44.sansScalingAndShear tmin tmax sqrt m)).det = 1 ∧
+      scaleH3 s * shearH3 h * (Gen.M44.sansScalingAndShear tmin tmax sqrt m).toMat = m.toMat := by
+  obtain ⟨r, he⟩ := Option.isSome_iff_exists.mp ((M44_extractAndRemoveScalingAndShear_succeeds_iff (tmin := tmin) hs h1 m).mpr hd)
+  obtain ⟨_, ho, hdet, _⟩ := ear44_spec (V3_length_spec hs) he
+  have hS : Gen.M44.sansScalingAndShear tmin tmax sqrt m = r.m := by rw [M44_sansScalingAndShear, he]
+  refine ⟨r.scl, r.shr, by rw [M44_extractScalingAndShear, he], by rw [M44_extractScaling, he], by rw [M44_extractScalingExc, he],
+    by rw [M44_removeScalingAndShear, he, hS], by rw [M44_sansScalingAndShearExc, he, hS], by rw [hS]; exact ho, by rw [hS]; exact hdet, ?_⟩
+  exact (M44_sansScalingAndShear_factors hs ha he).2
+
 /-! ## 3. The real functions -/
 
 theorem sqrtSpec_real : SqrtSpec Real.sqrt := fun x hx => ⟨Real.sqrt_nonneg x, Real.mul_self_sqrt hx⟩
